@@ -41,6 +41,7 @@ BadRelay(e) ==
        \cup T(IsCanonical(t, e.b0) /\ ~Conforms(t, RefDecode(t, e.b0).p, e.b1), "C11.canonical")
 
 BadFuzz(e) ==
+  IF e.outcome = "skipped" THEN {} ELSE
        T(e.outcome = "panic", "C03.panic")
   \cup T(e.outcome = "timeout", "C03.hang")
   \cup T(e.alloc > 64 * Len(e.in) + 1048576, "C03.alloc")
